@@ -490,6 +490,20 @@ Suffix(names, suf) == [n \in names |-> n \o suf]
 \* top-level int constants with literal values (bounds given by int variables)
 IntConst(ss, n) == LET I == {i \in DOMAIN ss : ss[i].k = "int" /\ ss[i].n = n /\ ss[i].e.k = "num"} IN
                    IF I = {} THEN 0 ELSE ss[CHOOSE i \in I : TRUE].e.v
+\* locals renamed apart, SEQUENTIALLY: an occurrence of a name before the statement that declares it locally still means the
+\* outer binding (and the right-hand side of `Signal x = x + 1` reads the outer x); a binding in sv (iterator / parameter) is
+\* hidden by a local declaration of the same name from that statement on
+RenameSeq(ss, suf, sv0) ==
+  LET F[j \in 0..Len(ss)] ==
+        IF j = 0 THEN [out |-> <<>>, rn |-> <<>>, sv |-> sv0]
+        ELSE LET prev == F[j-1]  st == ss[j]
+                 decl == st.k \in {"int", "let", "mem", "place"}
+                 body == SubstS(st, prev.rn, prev.sv)
+                 named == IF decl THEN [body EXCEPT !.n = st.n \o suf] ELSE body
+             IN [out |-> Append(prev.out, named),
+                 rn |-> IF decl THEN (st.n :> (st.n \o suf)) @@ prev.rn ELSE prev.rn,
+                 sv |-> IF decl THEN [n \in (DOMAIN prev.sv) \ {st.n} |-> prev.sv[n]] ELSE prev.sv]
+  IN F[Len(ss)].out
 RECURSIVE UnrollS(_, _, _), UnrollB(_, _, _)
 \* Unroll: every loop replaced by copies of its body, iterator substituted, locals renamed apart (suffix _<depth>_<k>)
 UnrollB(ss, top, tag) == LET G[i \in 0..Len(ss)] == IF i = 0 THEN <<>> ELSE G[i-1] \o UnrollS(ss[i], top, tag \o "_" \o ToString(i)) IN G[Len(ss)]
@@ -499,8 +513,7 @@ UnrollS(s, top, tag) ==
            vals == IF s.iter.k = "list" THEN s.iter.vs
                    ELSE LET st == bv(s.iter.s) IN RangeVals(bv(s.iter.a), bv(s.iter.b), IF st = 0 THEN 1 ELSE st, 2000)
            copy(k) == LET suf == tag \o "_" \o ToString(k)
-                          rn == Suffix(Declared(s.body), suf)
-                          body == [j \in DOMAIN s.body |-> SubstS(s.body[j], rn, (s.i :> Num(vals[k])))]
+                          body == RenameSeq(s.body, suf, (s.i :> Num(vals[k])))
                       IN UnrollB(body, top, suf)
            F[k \in 0..Len(vals)] == IF k = 0 THEN <<>> ELSE F[k-1] \o copy(k)
        IN F[Len(vals)]
@@ -516,7 +529,7 @@ InlineCall(call, top, tag) ==
   LET f == FuncOf(top, call.f)
       rn == Suffix(Declared(f.body), tag)
       sv == [n \in {f.params[j].n : j \in DOMAIN f.params} |-> call.args[CHOOSE j \in DOMAIN f.params : f.params[j].n = n]]
-      body == [j \in DOMAIN f.body |-> SubstS(f.body[j], rn, sv)]
+      body == RenameSeq(f.body, tag, sv)
   IN [stmts |-> InlineB(body, top, tag), ret |-> IF "k" \in DOMAIN f.ret THEN SubstE(f.ret, rn, sv) ELSE Num(0)]
 InlineS(s, top, tag, idx) ==
   IF s.k = "func" THEN <<>>
